@@ -181,9 +181,9 @@ template<typename D> struct Sys {
         okp = !o || pre(*o);
         if (o && okp) apply(x, subs, *o, true);
         if (!okp || abandoned) return "";
-        std::string k = fmt("%s|%s|%d%d|%d|", D::name, show(x.m_val).c_str(), active[0], active[1], active[0] && active[1] ? order[0] < order[1] : 0);
+        std::string k = fmt("%s|%s|%d%d|%d|", D::name, show(x.value()).c_str(), active[0], active[1], active[0] && active[1] ? order[0] < order[1] : 0);
         if (!D::default_eq) for (int i = 0; i < 2; i++) if (active[i]) k += show(held[i]) + ",";
-        if constexpr (std::is_same_v<T, std::string>) k += std::to_string(x.m_val.size());
+        if constexpr (std::is_same_v<T, std::string>) k += std::to_string(x.value().size());
         return k;
     }
 };
